@@ -1,4 +1,5 @@
 import OpacusLean.Lemmas.AcctHistoryRle
+import OpacusLean.Lemmas.RdpMonoQ
 import OpacusLean.Lemmas.GdpReal
 import Mathlib.Analysis.Complex.ExponentialBounds
 /-! # C12 — accountants are monotone and invariant to history order / run splitting
@@ -76,6 +77,31 @@ theorem eps_antitone_sigma (h₁ h₂ : Hist ℝ) (hg₁ : GoodHist h₁) (hg₂
   apply epsOf_mono_rdp
   rw [totR_append, totR_append, totR_cons, totR_cons]
   have := rdpR_antitone_sigma h0 h1 hs hss (hn2 n hn)
+  have hk : (0 : ℝ) ≤ (k : ℝ) := Nat.cast_nonneg k
+  have := mul_le_mul_of_nonneg_right this hk
+  simp only
+  linarith
+
+/-- **ε is non-decreasing in the sample rate** of any run (integer orders, rates in [0,1]): the binomial
+weights of `A_α` move towards larger `k` as `q` grows and the exponents `(k²−k)/(2σ²)` grow with `k`
+(`binE_mono_q`, `sgmSum_mono_q`). -/
+theorem eps_mono_q (h₁ h₂ : Hist ℝ) (hg₁ : GoodHist h₁) (hg₂ : GoodHist h₂) {s q q' : ℝ} (k : ℕ)
+    (h0 : 0 ≤ q) (hqq : q ≤ q') (h1 : q' ≤ 1) (hs : 0 < s) (δ : ℝ) {ns : List ℕ} (hns : ns ≠ [])
+    (hn2 : ∀ n ∈ ns, 2 ≤ n) :
+    EpsLe (acctEpsilon cfg (h₁ ++ (s, q, k) :: h₂) δ (ns.map .int))
+      (acctEpsilon cfg (h₁ ++ (s, q', k) :: h₂) δ (ns.map .int)) := by
+  have good : ∀ r : ℝ, 0 ≤ r → r ≤ 1 → GoodHist (h₁ ++ (s, r, k) :: h₂) := by
+    intro r hr0 hr1 e he
+    rcases List.mem_append.mp he with he | he
+    · exact hg₁ e he
+    · rcases List.mem_cons.mp he with rfl | he
+      · exact ⟨hr0, hr1, hs⟩
+      · exact hg₂ e he
+  apply epsLe_of cfg (by simp) (good q h0 (le_trans hqq h1)) (by simp) (good q' (le_trans h0 hqq) h1) hns hn2
+  intro n hn
+  apply epsOf_mono_rdp
+  rw [totR_append, totR_append, totR_cons, totR_cons]
+  have := rdpR_mono_q h0 hqq h1 hs (hn2 n hn)
   have hk : (0 : ℝ) ≤ (k : ℝ) := Nat.cast_nonneg k
   have := mul_le_mul_of_nonneg_right this hk
   simp only
